@@ -34,6 +34,17 @@ func proxyTraffic(c *hx.Ctx, o *hx.Outcome, dir string) []byte {
 		n = t.S(12)
 	}
 	var b []byte
+	if t.SBool(1, 3) {
+		// an NTRIP session starts with an HTTP-style handshake: the client's request
+		// (mountpoint, user agent, credentials) and the caster's reply
+		mp := []string{"MOUNT1", "RTCM3_EPH", "a/b c", "<b>x</b>", "%3Cscript%3E", "m?x=<y>&z=\"q\"", "M'><img src=x>"}[t.S(7)]
+		if dir == "client" {
+			b = append(b, []byte("GET /"+mp+" HTTP/1.1\r\nHost: caster.example\r\nNtrip-Version: Ntrip/2.0\r\nUser-Agent: NTRIP <client>/1.0\r\nAuthorization: Basic dXNlcjo8cGFzcz4=\r\n\r\n")...)
+		} else {
+			b = append(b, []byte([]string{"ICY 200 OK\r\n\r\n", "HTTP/1.1 200 OK\r\nNtrip-Version: Ntrip/2.0\r\nServer: <caster>\r\n\r\n", "SOURCETABLE 200 OK\r\nSTR;" + mp + ";;RTCM 3;\r\nENDSOURCETABLE\r\n"}[t.S(3)])...)
+		}
+		o.Probe(dir + ":ntrip-handshake")
+	}
 	for i := 0; i < n; i++ {
 		switch t.SW(4, 2, 2, 2, 2) {
 		case 0:
